@@ -55,6 +55,13 @@ func (fc *FuncCtx) regionOf(st *State, e ast.Expr) region {
 		if x.Op == token.ARROW {
 			return fc.newRegion("recv")
 		}
+		if x.Op == token.AND {
+			if _, lit := unparen(x.X).(*ast.CompositeLit); lit {
+				return fc.newRegion("fresh")
+			}
+			// the address of a variable the function keeps (and may overwrite later)
+			return region{base: "var:" + exprStr(x.X), borrowed: true}
+		}
 		return fc.regionOf(st, x.X)
 	case *ast.CompositeLit:
 		return fc.newRegion("fresh")
